@@ -1,10 +1,16 @@
 package snapshot
 
 // Native sweep (not part of the check; run by hand: `./bin/symgo nativetest C07 TestVerifSweepC07`).
-// Every (shape, crash point of the reap, crash point of the repair) of VerifC07Crash is executed on
-// the real file system with real SQLite files, the crash points driven from the real call sites;
-// no assertion may fail. This is the differential test of the symbolic run's file-system model
-// against the real calls on the unchanged tree, and of the crash-point hooks.
+// Every (shape, crash point of the reap, partial state when that point lies inside a call, crash
+// point of the repair, partial state) of VerifC07Crash is executed on the real file system with
+// real SQLite files, the crash points driven from the real call sites; no assertion may fail. This
+// is the differential test of the symbolic run's file-system model against the real calls on the
+// unchanged tree, and of the crash-point hooks (compare the "PTS" lines with those of the symbolic
+// run, VERIF_PRINT=1).
+//
+// VERIF_SWEEP=quick: the quick tier of VerifC07Crash (repair crashes between calls only, plans
+// with the database verification step); otherwise the thorough tier restricted to the quick shapes
+// (repair crashes inside calls as well, plans with and without the verification step).
 
 import (
 	"encoding/json"
@@ -35,6 +41,35 @@ func vSweepRun(f func(), vals map[string]any) (outcome []string, pruned bool) {
 
 func vNum(i int) json.Number { return json.Number(fmt.Sprint(i)) }
 
+// vSweepPartials runs f with the given choices and, for every crash inside a call the run meets,
+// with every partial state of that call ("partial<i>" choices, discovered from vPartialLog).
+func vSweepPartials(f func(), vals map[string]any, depth int, visit func(vals map[string]any, out []string, pruned bool)) {
+	out, pruned := vSweepRun(f, vals)
+	log := append([]int(nil), vPartialLog...)
+	if len(log) <= depth {
+		visit(vals, out, pruned)
+		return
+	}
+	for c := 0; c < log[depth]; c++ {
+		v2 := map[string]any{}
+		for k, v := range vals {
+			v2[k] = v
+		}
+		v2[verifName("partial", depth)] = vNum(c)
+		vSweepPartials(f, v2, depth+1, visit)
+	}
+}
+
+func vSweepBad(out []string) []string {
+	var bad []string
+	for _, o := range out {
+		if strings.HasPrefix(o, "violated") || strings.HasPrefix(o, "panic") || strings.HasPrefix(o, "finding") {
+			bad = append(bad, o)
+		}
+	}
+	return bad
+}
+
 // TestVerifSweepOps runs every choice vector of VerifC07Ops on the real file system.
 func TestVerifSweepOps(t *testing.T) {
 	for op := 0; op < 9; op++ {
@@ -50,42 +85,84 @@ func TestVerifSweepOps(t *testing.T) {
 	}
 }
 
+// TestVerifSweepOpsCrash runs every choice vector of VerifC07OpsCrash on the real file system.
+func TestVerifSweepOpsCrash(t *testing.T) {
+	runs := 0
+	for op := 0; op < 9; op++ {
+		for leftover := 0; leftover < 3; leftover++ {
+			if leftover > 0 && op != 3 {
+				continue
+			}
+			for at := 0; ; at++ {
+				live := false
+				vals := map[string]any{"op": vNum(op), "leftover": vNum(leftover), "crashAt": vNum(at)}
+				vSweepPartials(VerifC07OpsCrash, vals, 0, func(v map[string]any, out []string, pruned bool) {
+					runs++
+					if !pruned {
+						live = true
+						t.Logf("%v: died %s %s inside=%v", v, vCr.op, vCr.path, vCr.inside)
+					}
+					for _, o := range vSweepBad(out) {
+						t.Errorf("%v: %s", v, o)
+					}
+				})
+				if !live {
+					t.Logf("op=%d leftover=%d: %d crash points", op, leftover, at)
+					break
+				}
+			}
+		}
+	}
+	t.Logf("%d native runs", runs)
+}
+
 func TestVerifSweepC07(t *testing.T) {
-	os.Setenv("VERIF_TIER", "thorough")
-	defer os.Unsetenv("VERIF_TIER")
+	quick := os.Getenv("VERIF_SWEEP") == "quick"
+	if !quick {
+		os.Setenv("VERIF_TIER", "thorough")
+		defer os.Unsetenv("VERIF_TIER")
+	}
 	runs := 0
 	for older := 0; older < 2; older++ {
 		for fullWALs := 0; fullWALs < 2; fullWALs++ {
 			for incs := 0; incs < 3; incs++ {
 				for noVerify := 0; noVerify < 2; noVerify++ {
+					if quick && noVerify == 1 {
+						continue
+					}
 					points := 0
 					for at := 0; ; at++ {
-						repairPoints := 0
-						lastOp := ""
+						reapLive := false
 						for at2 := 0; ; at2++ {
+							live := false
 							vals := map[string]any{"older": vNum(older), "fullWALs": vNum(fullWALs), "incs": vNum(incs),
 								"noVerifyDB": vNum(noVerify), "crashAt": vNum(at), "crashInRepair0": vNum(at2)}
-							out, pruned := vSweepRun(VerifC07Crash, vals)
-							runs++
-							for _, o := range out {
-								if strings.HasPrefix(o, "violated") || strings.HasPrefix(o, "panic") || strings.HasPrefix(o, "finding") {
-									t.Errorf("older=%d fullWALs=%d incs=%d noVerify=%d crashAt=%d crashInRepair0=%d: %s", older, fullWALs, incs, noVerify, at, at2, o)
+							vSweepLastOp = ""
+							vSweepPartials(VerifC07Crash, vals, 0, func(v map[string]any, out []string, pruned bool) {
+								runs++
+								for _, o := range vSweepBad(out) {
+									t.Errorf("%v: %s", v, o)
 								}
-							}
-							if pruned {
+								if pruned {
+									return
+								}
+								live = true
+								if at2 == 0 {
+									t.Logf("older=%d fullWALs=%d incs=%d noVerify=%d: reap crash point %d (%s) %v", older, fullWALs, incs, noVerify, at+1, vSweepLastOp, v["partial0"])
+								}
+							})
+							if !live {
+								if at2 > 0 {
+									fmt.Println("VERIF-PRINT: PTS", older, 0, fullWALs, incs, 1, noVerify == 1, at+1, "<=", at2-1)
+								}
 								break
 							}
-							repairPoints = at2
-							if at2 == 0 {
-								lastOp = vSweepLastOp
-							}
+							reapLive = true
 						}
-						if repairPoints == 0 && lastOp == "" {
+						if !reapLive {
 							break // the reap ended before this crash point and before the previous one
 						}
 						points = at + 1
-						fmt.Println("VERIF-PRINT: PTS", older, 0, fullWALs, incs, 1, noVerify == 1, at+1, repairPoints)
-						t.Logf("older=%d fullWALs=%d incs=%d noVerify=%d: reap crash point %d (%s): %d repair crash points", older, fullWALs, incs, noVerify, at+1, lastOp, repairPoints)
 					}
 					t.Logf("older=%d fullWALs=%d incs=%d noVerify=%d: %d positions", older, fullWALs, incs, noVerify, points)
 				}
